@@ -21,6 +21,9 @@ import (
 //	'u' tail call through the table (return_call_indirect) to a function of the same module
 //	'v' tail call (return_call) to an imported guest function of another instance (level + 1)
 //	'w' tail call (return_call) to a host function
+//	'c' call again: not a function but a second call site: the parent calls, directly, the function
+//	    of an EARLIER node of the same module whose own call has already finished (Out holds the
+//	    target index as a digit). The callee runs its whole subtree again, now below another caller.
 //	'r' re-entry: the parent is a host function which calls the node through a fresh
 //	    mod.ExportedFunction(...).Call on the module that called the host function
 //
@@ -82,6 +85,15 @@ func ParseTree(s string) (Tree, error) {
 	return t, nil
 }
 
+// isCallAgain: node i is a second call site of function target(i), not a function of its own.
+func (t Tree) isCallAgain(i int) bool { return t[i].Kind == 'c' }
+func (t Tree) target(i int) int {
+	if t[i].Kind == 'c' {
+		return int(t[i].Out - '0')
+	}
+	return i
+}
+
 func (t Tree) isHost(i int) bool { return t[i].Kind == 'h' || t[i].Kind == 'w' }
 
 func isTailKind(k byte) bool { return k == 't' || k == 'u' || k == 'v' || k == 'w' }
@@ -111,6 +123,20 @@ func (t Tree) validate() error {
 			if !ph {
 				return fmt.Errorf("node %d: kind r needs a host parent", i)
 			}
+		case 'c':
+			tg := int(n.Out - '0')
+			if ph || tg < 1 || tg >= i || t.isHost(tg) || t[tg].Kind == 'c' {
+				return fmt.Errorf("node %d: bad call-again target", i)
+			}
+			lv := t.levels()
+			if lv[tg] != lv[n.Parent] {
+				return fmt.Errorf("node %d: call-again target lives in another module", i)
+			}
+			for x := n.Parent; x >= 0; x = t[x].Parent {
+				if x == tg {
+					return fmt.Errorf("node %d: call-again target is an active caller", i)
+				}
+			}
 		default:
 			return fmt.Errorf("node %d: kind %c", i, n.Kind)
 		}
@@ -122,6 +148,12 @@ func (t Tree) validate() error {
 		}
 	}
 	for i, n := range t {
+		if n.Kind == 'c' {
+			if len(t.children(i)) > 0 {
+				return fmt.Errorf("node %d: a call-again site has no children", i)
+			}
+			continue
+		}
 		ch := t.children(i)
 		ok := false
 		switch {
@@ -192,6 +224,8 @@ func (t Tree) sigs(start bool, rot, shape int) []sig {
 			s[i] = sigVoid
 		case isTailKind(t[i].Kind):
 			s[i] = s[t[i].Parent]
+		case t[i].Kind == 'c':
+			s[i] = s[t.target(i)]
 		default:
 			s[i] = table[(i+rot)%len(table)]
 		}
@@ -413,4 +447,25 @@ func chainTree(depth int, pattern string, leaf byte) Tree {
 		}
 	}
 	return t
+}
+
+// enumCallAgain returns every tree made of a base tree with exactly n nodes plus one call-again
+// site: for every guest node p on the right-most path (no tail call below it) and every earlier
+// guest function of the same module that is not an active caller of p.
+func enumCallAgain(n int) []Tree {
+	var out []Tree
+	for _, base := range enumTrees(n) {
+		for p := len(base) - 1; p >= 0; p = base[p].Parent {
+			if base.isHost(p) {
+				continue
+			}
+			for tg := 1; tg < len(base); tg++ {
+				t := append(append(Tree{}, base...), Node{Parent: p, Kind: 'c', Out: byte('0' + tg)})
+				if t.validate() == nil {
+					out = append(out, t)
+				}
+			}
+		}
+	}
+	return out
 }
